@@ -40,6 +40,12 @@ def check_sf(sc, c):
     ok = ~np.isnan(exp)
     if not np.allclose(g3[ok], 9 * exp[ok], rtol=1e-12, atol=1e-12):
         bad.append(("structure_function:quadratic", dict(got=g3.tolist())))
+    # only differences enter the definition: a constant (piston) of any size added to the phase changes nothing
+    for piston in (2.0 ** 17, 2.0 ** 25, 2.0 ** 27 * 3, -2.0 ** 30):
+        gp = np.asarray(sc.calculate_structure_function(ph + piston, nbOfPoint=nb, step=c["step"]), float)
+        if gp.shape != exp.shape or not np.allclose(gp[ok], exp[ok], rtol=1e-12, atol=1e-12):
+            bad.append(("structure_function:piston-invariance", dict(piston=piston, got=gp.tolist(), expected=exp.tolist())))
+            break
     if c["a"] != 99:
         law = np.array([c["a"] ** 2 * (j * c["step"]) ** 2 for j in range(c["xm"])], float)
         if not np.allclose(got[ok], law[ok], rtol=1e-12, atol=1e-12):
@@ -125,6 +131,15 @@ def check_axis(tp):
             if got.shape != exp.shape or not np.allclose(got, exp, rtol=1e-12, atol=0):
                 bad.append(("tps_time_axis:k*rate/n", dict(n=n, rate=rate, got=got.tolist()[:8])))
                 return bad, n_cases
+            # the caller owns what it was given: editing it (zero frequency replaced for a log plot, rad/s) and asking again
+            res = tp.get_tps_time_axis(rate, n)
+            if isinstance(res, np.ndarray) and res.flags.writeable and res.size:
+                res[0] = 1e-3
+                res *= 2 * np.pi
+                again = np.asarray(tp.get_tps_time_axis(rate, n), float)
+                if again.shape != exp.shape or not np.allclose(again, exp, rtol=1e-12, atol=0):
+                    bad.append(("tps_time_axis:k*rate/n:after-caller-edited-an-earlier-result", dict(n=n, rate=rate, got=again.tolist()[:8])))
+                    return bad, n_cases
     return bad, n_cases
 
 
